@@ -1,11 +1,16 @@
 /-
   C05 — the decoder accepts exactly the specified language with the specified values.
   `Spec.Avp` / `Spec.Message` are the independent executable specification: RFC 2661 field order and
-  widths, the crate's flag-bit numbering, the 39 payload formats as one positional table, UTF-8 and
-  enumerated-code constraints; no cursor, no monad, nothing shared with the model but `Prim`, the value
-  types and the code tables (whose content C16 pins to the RFC numbers).
+  widths, the two flag octets read by mask (T = 0x01, L = 0x02, S = 0x10, O = 0x40, P = 0x80, reserved 0x2C / 0x0F,
+  version = high nibble of the second octet), the 39 payload formats as one positional table, UTF-8 and
+  enumerated-code constraints; no cursor, no monad, no import of `Model/*` but the value types: nothing shared with
+  the model but `Prim`, the value types and the code tables (whose content C16 pins to the RFC numbers).  The
+  refinement proofs go through an intermediate form of the specification phrased with the model's flag accessors
+  (`Spec.decodeM`, Proofs/SpecM.lean); `Spec.decode_eq_decodeM` (Proofs/SpecBridge.lean, all 65 536 flag words by
+  kernel evaluation) shows it is the same function.
 -/
 import Rl2tp.Proofs.SpecMsg
+import Rl2tp.Proofs.SpecBridge
 import Rl2tp.Proofs.Utf8
 namespace Rl2tp.C05
 open Spec
@@ -15,17 +20,18 @@ open Spec
     specification names as the message (everything beyond them is untouched and has no influence: the
     right-hand side is a function of the named sub-slices only). -/
 theorem decode_eq_spec (o : Opts) (b : Bytes) :
-    viewR ((decode o : M Bytes (List DErr) Msg) b) = afterSpec b (Spec.decode o b) :=
-  decode_view o b
+    viewR ((decode o : M Bytes (List DErr) Msg) b) = afterSpec b (Spec.decode o b) := by
+  rw [Spec.decode_eq_decodeM]; exact decode_view o b
 
 /-- accept/reject agree -/
 theorem accepts_iff (o : Opts) (b : Bytes) :
     (∃ m r, (decode o : M Bytes (List DErr) Msg) b = .ok m r) ↔ (Spec.decode o b).isSome = true := by
+  rw [Spec.decode_eq_decodeM]
   have h := decode_view o b
   constructor
   · rintro ⟨m, r, hd⟩
     rw [hd] at h
-    cases hs : Spec.decode o b with
+    cases hs : Spec.decodeM o b with
     | none => rw [hs] at h; simp [viewR, afterSpec] at h
     | some p => rfl
   · intro hs
@@ -33,14 +39,21 @@ theorem accepts_iff (o : Opts) (b : Bytes) :
     | ok m r => exact ⟨m, r, rfl⟩
     | err es r =>
       rw [hd] at h
-      cases hsp : Spec.decode o b with
+      cases hsp : Spec.decodeM o b with
       | none => rw [hsp] at hs; simp at hs
       | some p => rw [hsp] at h; simp [viewR, afterSpec] at h
     | fault f =>
       rw [hd] at h
-      cases hsp : Spec.decode o b with
+      cases hsp : Spec.decodeM o b with
       | none => rw [hsp] at hs; simp at hs
       | some p => rw [hsp] at h; simp [viewR, afterSpec] at h
+
+/-- the flag octets by mask are the crate's flag accessors, for every flag word (so a wrong bit index in the model's
+    accessors could not hide behind the specification: the specification does not use them) -/
+theorem flag_masks (x y : UInt8) :
+    bitT x = isControl (word16 x y) ∧ bitL x = hasLength (word16 x y) ∧ bitS x = hasNsNr (word16 x y) ∧
+    bitO x = hasOffset (word16 x y) ∧ bitP x = isPrioritized (word16 x y) ∧ ver y = version (word16 x y) ∧
+    reservedClear x y = reservedOk (word16 x y) := Spec.flags_eq x y
 
 /-- a bare AVP list: the same records, element-wise a value (equal to the specified one) or not -/
 theorem decodeAvps_eq_spec (b : Bytes) :
